@@ -40,7 +40,7 @@ type Program struct {
 	closureOf  map[*ssa.Function]*ssa.MakeClosure
 
 	callSites map[*ssa.Function][]ssa.CallInstruction // static call sites per function (lazily built)
-	curEnv    *pathEnv                                  // path knowledge of the search step being evaluated (pathsense.go)
+	curEnv    *pathEnv                                // path knowledge of the search step being evaluated (pathsense.go)
 	// anchors found under a new name (old name → function); see resolveRenamedAnchors
 	renamed   map[string]*ssa.Function
 	canonName map[*ssa.Function]string // renamed anchor → the (last segment of the) name rules use
